@@ -382,6 +382,14 @@ def handleinvite__handleInviteCommonChecks : List String := [
   "return event, nil"
 ]
 
+def handleinvite_type_HandleInviteInput : List String := [
+  "type HandleInviteInput struct { RoomID spec.RoomID RoomVersion RoomVersion InvitedUser spec.UserID InvitedSenderID spec.SenderID InviteEvent PDU StrippedState []InviteStrippedState KeyID KeyID PrivateKey ed25519.PrivateKey Verifier JSONVerifier RoomQuerier RoomQuerier MembershipQuerier MembershipQuerier StateQuerier StateQuerier UserIDQuerier spec.UserIDForSender }"
+]
+
+def handleinvite_type_HandleInviteV3Input : List String := [
+  "type HandleInviteV3Input struct { HandleInviteInput InviteProtoEvent ProtoEvent GetOrCreateSenderID spec.CreateSenderID }"
+]
+
 def handlejoin__HandleMakeJoin : List String := [
   "func func(input HandleMakeJoinInput) (*HandleMakeJoinResponse, error)",
   "if input.RoomQuerier == nil || input.UserIDQuerier == nil {",
@@ -650,6 +658,22 @@ def handlejoin__roomVersionSupported : List String := [
   "return remoteSupportsVersion"
 ]
 
+def handlejoin_type_HandleMakeJoinInput : List String := [
+  "type HandleMakeJoinInput struct { Context context.Context UserID spec.UserID SenderID spec.SenderID RoomID spec.RoomID RoomVersion RoomVersion RemoteVersions []RoomVersion RequestOrigin spec.ServerName LocalServerName spec.ServerName LocalServerInRoom bool RoomQuerier RestrictedRoomJoinQuerier UserIDQuerier spec.UserIDForSender BuildEventTemplate func(*ProtoEvent) (PDU, []PDU, error) }"
+]
+
+def handlejoin_type_HandleMakeJoinResponse : List String := [
+  "type HandleMakeJoinResponse struct { JoinTemplateEvent ProtoEvent RoomVersion RoomVersion }"
+]
+
+def handlejoin_type_HandleSendJoinInput : List String := [
+  "type HandleSendJoinInput struct { Context context.Context RoomID spec.RoomID EventID string JoinEvent spec.RawJSON RoomVersion RoomVersion RequestOrigin spec.ServerName LocalServerName spec.ServerName KeyID KeyID PrivateKey ed25519.PrivateKey Verifier JSONVerifier MembershipQuerier MembershipQuerier UserIDQuerier spec.UserIDForSender StoreSenderIDFromPublicID spec.StoreSenderIDFromPublicID }"
+]
+
+def handlejoin_type_HandleSendJoinResponse : List String := [
+  "type HandleSendJoinResponse struct { AlreadyJoined bool JoinEvent PDU }"
+]
+
 def handleleave__HandleMakeLeave : List String := [
   "func func(input HandleMakeLeaveInput) (*HandleMakeLeaveResponse, error)",
   "if input.UserID.Domain() != input.RequestOrigin {",
@@ -691,6 +715,14 @@ def handleleave__HandleMakeLeave : List String := [
   "}",
   "makeLeaveResponse := HandleMakeLeaveResponse{LeaveTemplateEvent: proto, RoomVersion: input.RoomVersion}",
   "return &makeLeaveResponse, nil"
+]
+
+def handleleave_type_HandleMakeLeaveInput : List String := [
+  "type HandleMakeLeaveInput struct { UserID spec.UserID SenderID spec.SenderID RoomID spec.RoomID RoomVersion RoomVersion RequestOrigin spec.ServerName LocalServerName spec.ServerName LocalServerInRoom bool UserIDQuerier spec.UserIDForSender BuildEventTemplate func(*ProtoEvent) (PDU, []PDU, error) }"
+]
+
+def handleleave_type_HandleMakeLeaveResponse : List String := [
+  "type HandleMakeLeaveResponse struct { LeaveTemplateEvent ProtoEvent RoomVersion RoomVersion }"
 ]
 
 def invite_InviteStrippedState_Content : List String := [
@@ -798,6 +830,26 @@ def invite__setUnsignedFieldForProtoInvite : List String := [
   "}",
   "}",
   "return nil"
+]
+
+def invite_type_FederatedInviteClient : List String := [
+  "type FederatedInviteClient interface { SendInvite(ctx context.Context, event PDU, strippedState []InviteStrippedState) (PDU, error) SendInviteV3(ctx context.Context, event ProtoEvent, userID spec.UserID, roomVersion RoomVersion, strippedState []InviteStrippedState) (PDU, error) }"
+]
+
+def invite_type_InviteStrippedState : List String := [
+  "type InviteStrippedState struct { fields struct { Content spec.RawJSON `json:\"content\"` StateKey *string `json:\"state_key\"` Type string `json:\"type\"` SenderID string `json:\"sender\"` } }"
+]
+
+def invite_type_LatestEvents : List String := [
+  "type LatestEvents struct { RoomExists bool StateEvents []PDU PrevEventIDs []string Depth int64 }"
+]
+
+def invite_type_RoomQuerier : List String := [
+  "type RoomQuerier interface { IsKnownRoom(ctx context.Context, roomID spec.RoomID) (bool, error) }"
+]
+
+def invite_type_StateQuerier : List String := [
+  "type StateQuerier interface { GetAuthEvents(ctx context.Context, event PDU) (AuthEventProvider, error) GetState(ctx context.Context, roomID spec.RoomID, stateWanted []StateKeyTuple) ([]PDU, error) }"
 ]
 
 def performinvite__PerformInvite : List String := [
@@ -968,6 +1020,14 @@ def performinvite__truncateAuthAndPrevEvents : List String := [
   "truncPrev = truncPrev[:20]",
   "}",
   "return"
+]
+
+def performinvite_type_GetLatestEvents : List String := [
+  "type GetLatestEvents func(ctx context.Context, roomID spec.RoomID, eventsNeeded []StateKeyTuple) (LatestEvents, error)"
+]
+
+def performinvite_type_PerformInviteInput : List String := [
+  "type PerformInviteInput struct { RoomID spec.RoomID RoomVersion RoomVersion Inviter spec.UserID Invitee spec.UserID IsTargetLocal bool EventTemplate ProtoEvent StrippedState []InviteStrippedState KeyID KeyID SigningKey ed25519.PrivateKey EventTime time.Time MembershipQuerier MembershipQuerier StateQuerier StateQuerier UserIDQuerier spec.UserIDForSender SenderIDQuerier spec.SenderIDForUser SenderIDCreator spec.CreateSenderID EventQuerier GetLatestEvents StoreSenderIDFromPublicID spec.StoreSenderIDFromPublicID }"
 ]
 
 def performjoin__PerformJoin : List String := [
@@ -1176,6 +1236,14 @@ def performjoin__storeMXIDMappings : List String := [
   "return nil"
 ]
 
-def functions : List String := ["eventV1.go:eventV1.JoinRule", "eventV1.go:eventV1.Membership", "eventV1.go:eventV1.RoomID", "eventV1.go:eventV1.SenderID", "eventV1.go:eventV1.StateKey", "eventV1.go:eventV1.StateKeyEquals", "eventV1.go:eventV1.Type", "eventauth.go:AuthEvents.AddEvent", "eventauth.go:AuthEvents.Clear", "eventauth.go:AuthEvents.Valid", "eventauth.go:StateNeeded.AuthEventReferences", "eventauth.go:StateNeeded.Tuples", "eventauth.go:.NewAuthEvents", "eventauth.go:.StateNeededForProtoEvent", "eventauth.go:.accumulateStateNeeded", "eventcrypto.go:.getMXIDMapping", "eventcrypto.go:.validateMXIDMappingSignatures", "handleinvite.go:.HandleInvite", "handleinvite.go:.HandleInviteV3", "handleinvite.go:.handleInviteCommonChecks", "handlejoin.go:.HandleMakeJoin", "handlejoin.go:.HandleSendJoin", "handlejoin.go:.checkRestrictedJoin", "handlejoin.go:.noCheckRestrictedJoin", "handlejoin.go:.roomVersionSupported", "handleleave.go:.HandleMakeLeave", "invite.go:InviteStrippedState.Content", "invite.go:InviteStrippedState.MarshalJSON", "invite.go:InviteStrippedState.Sender", "invite.go:InviteStrippedState.StateKey", "invite.go:InviteStrippedState.Type", "invite.go:InviteStrippedState.UnmarshalJSON", "invite.go:.GenerateStrippedState", "invite.go:.NewInviteStrippedState", "invite.go:.abortIfAlreadyJoined", "invite.go:.createInviteLogger", "invite.go:.setUnsignedFieldForInvite", "invite.go:.setUnsignedFieldForProtoInvite", "performinvite.go:.PerformInvite", "performinvite.go:.truncateAuthAndPrevEvents", "performjoin.go:.PerformJoin", "performjoin.go:.checkEventsContainCreateEvent", "performjoin.go:.isSignedJoinEvent", "performjoin.go:.isWellFormedJoinMemberEvent", "performjoin.go:.setDefaultRoomVersionFromJoinEvent", "performjoin.go:.storeMXIDMappings"]
+def performjoin_type_PerformJoinInput : List String := [
+  "type PerformJoinInput struct { UserID *spec.UserID RoomID *spec.RoomID ServerName spec.ServerName Content map[string]interface{} Unsigned map[string]interface{} PrivateKey ed25519.PrivateKey KeyID KeyID KeyRing *KeyRing EventProvider EventProvider UserIDQuerier spec.UserIDForSender GetOrCreateSenderID spec.CreateSenderID StoreSenderIDFromPublicID spec.StoreSenderIDFromPublicID }"
+]
+
+def performjoin_type_PerformJoinResponse : List String := [
+  "type PerformJoinResponse struct { JoinEvent PDU StateSnapshot StateResponse }"
+]
+
+def functions : List String := ["eventV1.go:eventV1.JoinRule", "eventV1.go:eventV1.Membership", "eventV1.go:eventV1.RoomID", "eventV1.go:eventV1.SenderID", "eventV1.go:eventV1.StateKey", "eventV1.go:eventV1.StateKeyEquals", "eventV1.go:eventV1.Type", "eventauth.go:AuthEvents.AddEvent", "eventauth.go:AuthEvents.Clear", "eventauth.go:AuthEvents.Valid", "eventauth.go:StateNeeded.AuthEventReferences", "eventauth.go:StateNeeded.Tuples", "eventauth.go:.NewAuthEvents", "eventauth.go:.StateNeededForProtoEvent", "eventauth.go:.accumulateStateNeeded", "eventcrypto.go:.getMXIDMapping", "eventcrypto.go:.validateMXIDMappingSignatures", "handleinvite.go:.HandleInvite", "handleinvite.go:.HandleInviteV3", "handleinvite.go:.handleInviteCommonChecks", "handleinvite.go:type HandleInviteInput", "handleinvite.go:type HandleInviteV3Input", "handlejoin.go:.HandleMakeJoin", "handlejoin.go:.HandleSendJoin", "handlejoin.go:.checkRestrictedJoin", "handlejoin.go:.noCheckRestrictedJoin", "handlejoin.go:.roomVersionSupported", "handlejoin.go:type HandleMakeJoinInput", "handlejoin.go:type HandleMakeJoinResponse", "handlejoin.go:type HandleSendJoinInput", "handlejoin.go:type HandleSendJoinResponse", "handleleave.go:.HandleMakeLeave", "handleleave.go:type HandleMakeLeaveInput", "handleleave.go:type HandleMakeLeaveResponse", "invite.go:InviteStrippedState.Content", "invite.go:InviteStrippedState.MarshalJSON", "invite.go:InviteStrippedState.Sender", "invite.go:InviteStrippedState.StateKey", "invite.go:InviteStrippedState.Type", "invite.go:InviteStrippedState.UnmarshalJSON", "invite.go:.GenerateStrippedState", "invite.go:.NewInviteStrippedState", "invite.go:.abortIfAlreadyJoined", "invite.go:.createInviteLogger", "invite.go:.setUnsignedFieldForInvite", "invite.go:.setUnsignedFieldForProtoInvite", "invite.go:type FederatedInviteClient", "invite.go:type InviteStrippedState", "invite.go:type LatestEvents", "invite.go:type RoomQuerier", "invite.go:type StateQuerier", "performinvite.go:.PerformInvite", "performinvite.go:.truncateAuthAndPrevEvents", "performinvite.go:type GetLatestEvents", "performinvite.go:type PerformInviteInput", "performjoin.go:.PerformJoin", "performjoin.go:.checkEventsContainCreateEvent", "performjoin.go:.isSignedJoinEvent", "performjoin.go:.isWellFormedJoinMemberEvent", "performjoin.go:.setDefaultRoomVersionFromJoinEvent", "performjoin.go:.storeMXIDMappings", "performjoin.go:type PerformJoinInput", "performjoin.go:type PerformJoinResponse"]
 
 end VPins.C15
